@@ -627,3 +627,52 @@ func GenStmtFuzzScript(t *rapid.T, thorough bool) *Script {
 	}
 	return s
 }
+
+// GenHandoffScript: scheduler and real binder as separate actors; bind failures, node deletion,
+// back-off limits; ends with fault-free rounds.
+func GenHandoffScript(t *rapid.T, thorough bool) *Script {
+	o := mixedOpts(thorough)
+	o.Faults, o.BindFailures, o.MIG, o.Completions = false, false, false, false
+	s := GenScript(t, "C12", "handoff", o)
+	var pods []string
+	for _, w := range s.World.Workloads {
+		for _, p := range w.Pods {
+			if p.State == "pending" {
+				pods = append(pods, p.Name)
+			}
+		}
+	}
+	s.BindFail = map[string]int{}
+	if len(pods) > 0 {
+		n := rapid.IntRange(0, 3).Draw(t, "nbindfail")
+		for i := 0; i < n; i++ {
+			s.BindFail[pick(t, "bfpod", pods...)] = pick(t, "bftimes", 1, 1, 2, 3, 5, 99)
+		}
+	}
+	var ops []Op
+	rounds := rapid.IntRange(2, 5).Draw(t, "rounds")
+	for i := 0; i < rounds; i++ {
+		ops = append(ops, Op{Kind: "cycle"})
+		if chance(t, "setbackoff", 35) {
+			ops = append(ops, Op{Kind: "set_backoff", N: rapid.IntRange(1, 4).Draw(t, "limit")})
+		}
+		if chance(t, "rbinder", 85) {
+			ops = append(ops, Op{Kind: "rbinder", N: rapid.IntRange(0, 3).Draw(t, "retries")})
+		}
+		if chance(t, "kubelet", 70) {
+			ops = append(ops, Op{Kind: "kubelet"})
+		}
+		if len(s.World.Nodes) > 1 && chance(t, "delnode", 10) {
+			ops = append(ops, Op{Kind: "delete_node", Arg: s.World.Nodes[rapid.IntRange(0, len(s.World.Nodes)-1).Draw(t, "whichnode")].Name})
+		}
+		if chance(t, "advance", 30) {
+			ops = append(ops, Op{Kind: "advance", N: pick(t, "adv", 1, 10, 61)})
+		}
+	}
+	// faults stop: transient bind failures are used up by generous retries, then clean rounds
+	for i := 0; i < 4; i++ {
+		ops = append(ops, Op{Kind: "cycle"}, Op{Kind: "rbinder", N: 6}, Op{Kind: "kubelet"})
+	}
+	s.Ops = ops
+	return s
+}
